@@ -187,6 +187,10 @@ func postFn(n *Node, ps PostSpec, rec *Recorder) z.PostTransform {
 			return errors.New("post failed")
 		case "failissue":
 			return ctx.Issue().SetCode(ps.Code).SetPath(ps.Path).SetDType(ps.DType).SetMessage(ps.Msg)
+		case "failwrap":
+			// an ordinary error whose Unwrap chain holds a ZogIssue (e.g. the result of running another schema
+			// inside the callback): it is the RETURNED error that is reported, at the node's path
+			return fmt.Errorf("inner schema rejected the value: %w", &z.ZogIssue{Code: "inner_code", Path: "inner.path", Dtype: "inner", Message: "inner message"})
 		}
 		return nil
 	}
@@ -676,6 +680,9 @@ func preErr(n *Node) error {
 	if n.PreKind == "failissue" {
 		return &z.ZogIssue{Code: n.PreIss.Code, Path: n.PreIss.Path, Dtype: n.PreIss.DType, Message: n.PreIss.Msg}
 	}
+	if n.PreKind == "failwrap" {
+		return fmt.Errorf("inner schema rejected the value: %w", &z.ZogIssue{Code: "inner_code", Path: "inner.path", Dtype: "inner", Message: "inner message"})
+	}
 	return errors.New("preprocess failed")
 }
 
@@ -703,7 +710,7 @@ func buildPre(n *Node, rec *Recorder) z.ZogSchema {
 	switch n.PreKind {
 	case "idany":
 		return z.Preprocess(func(data any, ctx z.Ctx) (any, error) { note(data, ctx); return data, nil }, inner)
-	case "fail", "failissue":
+	case "fail", "failissue", "failwrap":
 		return z.Preprocess(func(data any, ctx z.Ctx) (any, error) { note(data, ctx); return data, preErr(n) }, inner)
 	case "atoi":
 		return z.Preprocess(func(data string, ctx z.Ctx) (int, error) {
